@@ -6,7 +6,10 @@ Import ListNotations.
 (* the model evaluated is the FIXED code (fixes/C13_size_mismatch.patch applied) *)
 Inductive case :=
 | CaseC (max : N) (ttl : Z) (maxretry : N) (ops : list op) (obs : list obs_t)
-| CaseL (size ttl : Z) (ops : list (lop * Z)) (obs : list lobs_t).
+| CaseL (size ttl : Z) (ops : list (lop * Z)) (obs : list lobs_t)
+(* lock-convoy pairs: a sequential prefix, then two calls started concurrently *)
+| CaseCP (max : N) (pre : list op) (preobs : list obs_t) (a b : op) (ra rb : out) (fin : N * list (N * N))
+| CaseLP (size ttl : Z) (pre : list (lop * Z)) (preobs : list lobs_t) (a b : lop) (at_ : Z) (ra rb : out) (fin : N * list N).
 
 Fixpoint idx_filter (f : case -> bool) (i : N) (cs : list case) : list N :=
   match cs with
@@ -18,11 +21,15 @@ Definition agrees (c : case) : bool :=
   match c with
   | CaseC max ttl mr ops obs => obss_eqb (snd (run true (init max ttl mr) ops)) obs
   | CaseL size ttl ops obs => lobss_eqb (snd (lrun (linit size ttl) ops)) obs
+  | CaseCP max pre preobs a b ra rb fin => pair_agrees max pre preobs a b ra rb fin
+  | CaseLP size ttl pre preobs a b at_ ra rb fin => lpair_agrees size ttl pre preobs a b at_ ra rb fin
   end.
 Definition holds (c : case) : bool :=
   match c with
   | CaseC max ttl mr ops obs => C13_cache_check max ops obs
   | CaseL size ttl ops obs => C13_lru_check size ttl ops obs
+  | CaseCP max pre preobs a b ra rb fin => C13_pair_check max pre preobs a b ra rb fin
+  | CaseLP size ttl pre preobs a b at_ ra rb fin => C13_lru_pair_check size ttl pre preobs a b at_ fin
   end.
 
 Definition mismatches (cs : list case) : list N := idx_filter (fun c => negb (agrees c)) 0%N cs.
